@@ -88,6 +88,8 @@ func main() {
 				return r.Run(&sc)
 			}
 		})
+	case "probe-replace":
+		probeReplace()
 	case "netconf":
 		simple(os.Args[2:], func(w *env.World, out *bufio.Writer) func([]byte) error {
 			r := &drive.NCRunner{W: w, Out: out}
